@@ -3508,6 +3508,16 @@ func (x *actorSystem) gateCrashRecovery(peerAddress string) {
 		return
 	}
 
+	// a duplicate NodeLeft for a departure whose relocation is still in flight
+	// must not announce a second relocation: dispatchDerivedRebalance below would
+	// refuse it anyway, so the RelocationStarted event would describe a
+	// relocation that never starts (the snapshot path already publishes only
+	// after beginRelocation succeeded)
+	if _, inflight := x.relocationJob(peerAddress); inflight {
+		x.logger.Debugf("leader=%s found relocation already in flight for node=%s", x.String(), peerAddress)
+		return
+	}
+
 	// surface the best-effort nature of registry-derived recovery on the events
 	// stream: records lost with the crashed node's partitions cannot be listed,
 	// so subscribers holding an external record of placements can diff against
